@@ -72,6 +72,9 @@ NEUTRAL = [
     dict(name='single_sig_lock_verifies_then_pushes_true', file=TL, pids=['C17', 'C18'],
          old="    return Script.from_src(f'push x{pubkey.hex()} check_sig x{sigflags}')",
          new="    return Script.from_src(f'push x{pubkey.hex()} check_sig_verify x{sigflags} true')"),
+    dict(name='htlc_builder_announces_its_deprecation', file=TL, pids=['C15'],
+         old="    if preimage and not digest:\n        digest = sha256(preimage).digest()",
+         new="    __import__('warnings').warn('use the htlc2 builders', DeprecationWarning)\n    if preimage and not digest:\n        digest = sha256(preimage).digest()", count=2),
     dict(name='plugins_kept_in_a_copy_per_call', file=FN, pids=['C19'],
          old="    tape.plugins = {**_plugins, **plugins}\n    run_tape(tape, stack, cache, additional_flags=additional_flags)",
          new="    tape.plugins = {k: list(v) for k, v in {**_plugins, **plugins}.items()}\n    run_tape(tape, stack, cache, additional_flags=additional_flags)"),
